@@ -45,6 +45,7 @@ def main(argv):
     mod = importlib.import_module("vf.checks." + prop.lower())
     ctx = core.Ctx(prop, tier, int(seed), int(shard), int(nshards))
     ctx.deadline = time.time() + timeout * 0.8
+    ctx.checkpoint_prefix = out_prefix
     try:
         mod.run(ctx)
     except Exception as ex:  # harness failure: inconclusive, never green
